@@ -323,9 +323,10 @@ def one(ctx, tcase, k, x=None, tag=None):
                   int(rng.integers(1, 4))):
         d = dec.get_x_dim(slack)
         ctx.count("get_x_dim_calls")
+        # (how much a given slack adds is the decoder's business; only
+        # admissibility and "no slack = the minimum" are judged)
         if type(d) is not int or d < base_dim or d % 2 or (
-                slack == 0 and d != base_dim) or d != 2 * (
-                base_dim // 2 + int(slack * (base_dim // 2) + 0.5)):
+                slack == 0 and d != base_dim):
             ctx.violation("get-x-dim-not-admissible",
                           f"get_x_dim({slack!r}) = {d!r} for {base_dim // 2} "
                           f"splits", {"kind": "vector", "template": tcase,
